@@ -535,11 +535,18 @@ func (l *IPFSLog) Join(otherLog iface.IPFSLog, size int) (iface.IPFSLog, error) 
 		return l, nil
 	}
 
+	// Take a snapshot of the other log before locking this one: its heads (exactly once),
+	// then its entries. A log only grows, so everything reachable from these heads is among
+	// the entries read afterwards. Calling the other log's accessors (which take its lock)
+	// while holding our own lock would let two logs joining each other deadlock.
+	otherHeads := otherLog.RawHeads()
+	otherEntries := otherLog.GetEntries()
+
 	l.lock.Lock()
 	defer l.lock.Unlock()
 	verifhook.Yield("join.locked", l)
 
-	newItems := difference(otherLog.GetEntries(), otherLog.RawHeads().Slice(), l)
+	newItems := difference(otherEntries, otherHeads.Slice(), l)
 
 	verifhook.Yield("join.diffed", l)
 	wg := &sync.WaitGroup{}
@@ -592,7 +599,7 @@ func (l *IPFSLog) Join(otherLog iface.IPFSLog, size int) (iface.IPFSLog, error) 
 	}
 
 	verifhook.Yield("join.before-heads", l)
-	mergedHeads := entry.FindHeads(l.heads.Merge(otherLog.RawHeads()))
+	mergedHeads := entry.FindHeads(l.heads.Merge(otherHeads))
 
 	for idx, e := range mergedHeads {
 		// notReferencedByNewItems
